@@ -81,6 +81,8 @@ func (f *stubFile) Get(ref pdf.Reference, canObjStm bool) (pdf.Native, error) {
 //
 //	DecA   pdf.Decode[*ViewA](ref, fnA)
 //	DexA   pdf.DecodeExclusive[*ViewA](ref, fnA)
+//	DecB   pdf.Decode[*ViewB](ref, fnB): a second Go type for the same reference
+//	DexB   pdf.DecodeExclusive[*ViewB](ref, fnB)
 //	Pair   pdf.StoreOrLoadPair[*ViewA,*ViewB](x, ref, a, b) with a fresh linked pair
 //	DecP   pdf.Decode[*ViewA](ref, fn) where fn builds a linked pair and publishes
 //	       it with StoreOrLoadPair under the cursor's innermost reference (the way
@@ -119,16 +121,17 @@ func (p *Program) ID() string {
 type topology struct {
 	name string
 	refs []string
-	ops  []Op
+	ops  []Op // the alphabet of the enumerated families
+	more []Op // further operations, used by the sampling job only
 }
 
 // Pair is only issued for the reference that directly holds the object: that
 // is how the library's own callers use StoreOrLoadPair (Cursor.Path().Ref).
 var topologies = []topology{
-	{"single", []string{"S"}, []Op{{"DecA", "S"}, {"DexA", "S"}, {"Pair", "S"}, {"DecP", "S"}, {"DecPB", "S"}}},
-	{"failing", []string{"F"}, []Op{{"DecA", "F"}, {"DexA", "F"}}},
-	{"chain", []string{"A", "B"}, []Op{{"DecA", "A"}, {"DecA", "B"}, {"DexA", "A"}, {"DexA", "B"}, {"Pair", "B"}}},
-	{"mutual", []string{"X", "Y"}, []Op{{"DecA", "X"}, {"DecA", "Y"}}},
+	{"single", []string{"S"}, []Op{{"DecA", "S"}, {"DexA", "S"}, {"DecB", "S"}, {"DexB", "S"}, {"Pair", "S"}, {"DecP", "S"}, {"DecPB", "S"}}, nil},
+	{"failing", []string{"F"}, []Op{{"DecA", "F"}, {"DexA", "F"}, {"DexB", "F"}}, []Op{{"DecB", "F"}}},
+	{"chain", []string{"A", "B"}, []Op{{"DecA", "A"}, {"DecA", "B"}, {"DexA", "A"}, {"DexA", "B"}, {"Pair", "B"}}, []Op{{"DexB", "A"}, {"DexB", "B"}, {"DecB", "A"}, {"DecB", "B"}}},
+	{"mutual", []string{"X", "Y"}, []Op{{"DecA", "X"}, {"DecA", "Y"}}, nil},
 }
 
 func topoByName(name string) *topology {
@@ -169,6 +172,9 @@ func (c *Case) validate() error {
 			for _, a := range tp.ops {
 				ok = ok || a == o
 			}
+			for _, a := range tp.more {
+				ok = ok || a == o
+			}
 			if !ok {
 				return fmt.Errorf("invalid case: operation %v is not in topology %s", o, tp.name)
 			}
@@ -197,10 +203,13 @@ type ViewB struct {
 	Twin   *ViewA
 }
 
-type fnError struct{ serial int }
+type fnError struct {
+	serial int
+	tp     byte // the type whose decode function failed
+}
 
 func (e *fnError) Error() string {
-	return fmt.Sprintf("decode function failed (invocation %d)", e.serial)
+	return fmt.Sprintf("View%c decode function failed (invocation %d)", e.tp, e.serial)
 }
 
 // ---------------------------------------------------------------------------
@@ -227,6 +236,7 @@ type invocation struct {
 	serial       int
 	obj          string
 	pair         bool
+	tp           byte // 'A', 'B'; pair builders: 'P'
 }
 
 type opResult struct {
@@ -320,6 +330,8 @@ func (r *run) enter(w int, k key) {
 		for _, kk := range ks {
 			if kk == k {
 				r.classes["overlap-same-key"] = true
+			} else if kk.ref == k.ref {
+				r.classes["overlap-two-types-one-reference"] = true
 			}
 		}
 	}
@@ -370,6 +382,15 @@ func (r *run) classify(w int, point string) sched.Action {
 		return a
 	}
 	f := &st[len(st)-1]
+	if point == "DecodeExclusive:hit" || point == "DecodeExclusive:owner" || point == "DecodeExclusive:wait" {
+		// the caller has just been through its first critical section: was
+		// an exclusive decode of the same reference as the OTHER type
+		// registered at that moment?
+		other := key{f.k.ref, 'A' + 'B' - f.k.tp}
+		if _, ok := r.owner[other]; ok {
+			r.classes["dex-arrives-during-other-type"] = true
+		}
+	}
 	switch point {
 	case "DecodeExclusive:hit":
 		f.role = "hit"
@@ -403,7 +424,12 @@ func (r *run) classify(w int, point string) sched.Action {
 		if !ok {
 			// the model cannot say when the receive returns: park the worker
 			// for good (the run ends as a deadlock) and report this instead
-			r.proto = append(r.proto, fmt.Sprintf("worker %d found a pending decode of %v although no DecodeExclusive call is between registration and hand-over", w, f.k))
+			other := key{f.k.ref, 'A' + 'B' - f.k.tp}
+			if oo, ok := r.owner[other]; ok {
+				r.proto = append(r.proto, fmt.Sprintf("worker %d, DecodeExclusive of %v, is made to wait for the pending decode #%d of %v (worker %d): exclusive decodes of one reference as different types must not wait for each other nor share an outcome", w, f.k, oo.gen, other, r.ownerOp[oo][0]))
+			} else {
+				r.proto = append(r.proto, fmt.Sprintf("worker %d found a pending decode of %v although no DecodeExclusive call is between registration and hand-over", w, f.k))
+			}
 			a.Wait = genKey{f.k, -1}
 			return a
 		}
@@ -423,13 +449,13 @@ func (r *run) fnA(w, op, depth int, c pdf.Cursor, obj pdf.Object) (*ViewA, error
 	serial := r.serial
 	dict, _ := obj.(pdf.Dict)
 	id, _ := dict["Id"].(pdf.Name)
-	r.invs = append(r.invs, invocation{w: w, op: op, depth: depth, serial: serial, obj: string(id)})
+	r.invs = append(r.invs, invocation{w: w, op: op, depth: depth, serial: serial, obj: string(id), tp: 'A'})
 	if dict == nil {
 		return nil, fmt.Errorf("decode function got %T instead of a dictionary", obj)
 	}
 	if dict["Bad"] != nil {
 		yield("fn:exit")
-		return nil, &fnError{serial}
+		return nil, &fnError{serial, 'A'}
 	}
 	val, _ := dict["Val"].(pdf.Integer)
 	v := &ViewA{Serial: serial, Obj: string(id), Val: int(val)}
@@ -480,13 +506,63 @@ func (r *run) dexA(w, op int, c pdf.Cursor, ref pdf.Reference) (*ViewA, error, d
 	return v, err, f
 }
 
+// fnB is the plain decode function for *ViewB (no peers: the mutual topology
+// is decoded as *ViewA only).
+func (r *run) fnB(w, op int, obj pdf.Object) (*ViewB, error) {
+	yield("fn:enter")
+	r.serial++
+	serial := r.serial
+	dict, _ := obj.(pdf.Dict)
+	id, _ := dict["Id"].(pdf.Name)
+	r.invs = append(r.invs, invocation{w: w, op: op, serial: serial, obj: string(id), tp: 'B'})
+	if dict == nil {
+		return nil, fmt.Errorf("decode function got %T instead of a dictionary", obj)
+	}
+	yield("fn:exit")
+	if dict["Bad"] != nil {
+		return nil, &fnError{serial, 'B'}
+	}
+	val, _ := dict["Val"].(pdf.Integer)
+	return &ViewB{Serial: serial, Obj: string(id), Val: int(val)}, nil
+}
+
+func (r *run) decB(w, op int, c pdf.Cursor, ref pdf.Reference) (*ViewB, error) {
+	k := key{ref, 'B'}
+	r.enter(w, k)
+	v, err := pdf.Decode(c, ref, func(c pdf.Cursor, obj pdf.Object, _ bool) (*ViewB, error) {
+		return r.fnB(w, op, obj)
+	})
+	r.leave(w)
+	if err == nil {
+		r.observe(k, v, w, op, 0, "Decode")
+	}
+	return v, err
+}
+
+func (r *run) dexB(w, op int, c pdf.Cursor, ref pdf.Reference) (*ViewB, error, dxFrame) {
+	k := key{ref, 'B'}
+	r.enter(w, k)
+	s := r.slot(w)
+	r.dx[s] = append(r.dx[s], dxFrame{k: k, op: op})
+	v, err := pdf.DecodeExclusive(c, ref, func(c pdf.Cursor, obj pdf.Object, _ bool) (*ViewB, error) {
+		return r.fnB(w, op, obj)
+	})
+	f := r.dx[s][len(r.dx[s])-1]
+	r.dx[s] = r.dx[s][:len(r.dx[s])-1]
+	r.leave(w)
+	if err == nil {
+		r.observe(k, v, w, op, 0, "DecodeExclusive")
+	}
+	return v, err, f
+}
+
 // newPair builds a linked pair from the object.
 func (r *run) newPair(w, op, depth int, obj pdf.Object) (*ViewA, *ViewB) {
 	r.serial++
 	dict, _ := obj.(pdf.Dict)
 	id, _ := dict["Id"].(pdf.Name)
 	val, _ := dict["Val"].(pdf.Integer)
-	r.invs = append(r.invs, invocation{w: w, op: op, depth: depth, serial: r.serial, obj: string(id), pair: true})
+	r.invs = append(r.invs, invocation{w: w, op: op, depth: depth, serial: r.serial, obj: string(id), pair: true, tp: 'P'})
 	a := &ViewA{Serial: r.serial, Obj: string(id), Val: int(val)}
 	b := &ViewB{Serial: r.serial, Obj: string(id), Val: int(val)}
 	a.Twin, b.Twin = b, a
@@ -520,6 +596,12 @@ func (r *run) doOp(w, i int, o Op) opResult {
 	case "DexA":
 		var f dxFrame
 		res.a, res.err, f = r.dexA(w, i, c, ref)
+		res.role, res.gen = f.role, f.gen
+	case "DecB":
+		res.b, res.err = r.decB(w, i, c, ref)
+	case "DexB":
+		var f dxFrame
+		res.b, res.err, f = r.dexB(w, i, c, ref)
 		res.role, res.gen = f.role, f.gen
 	case "Pair":
 		obj, _ := theStub.Get(ref, true)
@@ -708,7 +790,18 @@ func checkCase(c *Case) error {
 	}
 	for _, name := range tp.refs {
 		ref := refOf(name)
-		if len(r.seen[key{ref, 'B'}]) > 0 {
+		// StoreOrLoadPair is probed only the way the operations use it: on a
+		// reference that directly holds the object and for which the program
+		// contains a pair publisher
+		published := false
+		for _, ops := range p.Workers {
+			for _, o := range ops {
+				if (o.Kind == "Pair" || o.Kind == "DecP" || o.Kind == "DecPB") && holder(o.Ref) == name {
+					published = true
+				}
+			}
+		}
+		if published {
 			a, b := r.newPair(-1, 0, 0, theStub.objs[ref])
 			ra, rb := pdf.StoreOrLoadPair(r.x, ref, a, b)
 			r.observe(key{ref, 'A'}, ra, -1, 0, 0, "StoreOrLoadPair")
@@ -746,41 +839,94 @@ func checkCase(c *Case) error {
 		}
 		return stat[k]
 	}
+	// which keys an operation can publish a value under (chain: also the
+	// holder's key of the same type)
+	publishes := func(o Op) []key {
+		var tps []byte
+		switch o.Kind {
+		case "DecA", "DexA":
+			tps = []byte{'A'}
+		case "DecB", "DexB":
+			tps = []byte{'B'}
+		default: // the pair publishers
+			tps = []byte{'A', 'B'}
+		}
+		var out []key
+		for _, tp := range tps {
+			out = append(out, key{refOf(o.Ref), tp})
+			if h := holder(o.Ref); h != o.Ref {
+				out = append(out, key{refOf(h), tp})
+			}
+		}
+		return out
+	}
 	for w := range p.Workers {
 		for i, o := range p.Workers[w] {
 			res := r.results[w][i]
-			switch o.Kind {
-			case "DexA":
-				s := get(key{refOf(o.Ref), 'A'})
-				s.calls++
-				if res.ranFn {
-					s.ran++
+			if o.Kind != "DexA" && o.Kind != "DexB" {
+				continue
+			}
+			k := key{refOf(o.Ref), o.Kind[3]}
+			s := get(k)
+			s.calls++
+			if res.ranFn {
+				s.ran++
+			}
+			if res.role == "waiter" {
+				ow, ok := r.ownerOp[genKey{k, res.gen}]
+				if !ok {
+					return fmt.Errorf("worker %d op %d waited for a pending decode nobody owns%s", w, i, where())
 				}
-				if res.role == "waiter" {
-					ow, ok := r.ownerOp[genKey{key{refOf(o.Ref), 'A'}, res.gen}]
-					if !ok {
-						return fmt.Errorf("worker %d op %d waited for a pending decode nobody owns%s", w, i, where())
-					}
-					ores := r.results[ow[0]][ow[1]]
-					if ores.err != res.err || ores.a != res.a {
-						return fmt.Errorf("DecodeExclusive(%s): waiting worker %d got (%s, %v) but the worker that ran the decode (worker %d) got (%s, %v)%s",
-							o.Ref, w, describe(res.a), res.err, ow[0], describe(ores.a), ores.err, where())
-					}
+				ores := r.results[ow[0]][ow[1]]
+				if ores.err != res.err || ores.a != res.a || ores.b != res.b {
+					return fmt.Errorf("DecodeExclusive(%s) as View%c: waiting worker %d got (%s, %v) but the worker that ran the decode (worker %d) got (%s, %v)%s",
+						o.Ref, k.tp, w, describe(resultPtr(res)), res.err, ow[0], describe(resultPtr(ores)), ores.err, where())
 				}
 			}
 		}
 	}
-	// operations other than DexA on the same key that can make the function of
-	// a DexA call unnecessary: everything that publishes a *ViewA under the
-	// key's reference or under a reference further down its chain
+	// every failure of a decode function reaches only callers of ITS type
+	for w := range p.Workers {
+		for i, o := range p.Workers[w] {
+			var fe *fnError
+			if errors.As(r.results[w][i].err, &fe) {
+				want := byte('A')
+				if o.Kind == "DecB" || o.Kind == "DexB" || o.Kind == "DecPB" {
+					want = 'B'
+				}
+				if fe.tp != want {
+					return fmt.Errorf("worker %d %v (View%c) received the error of a View%c decode function: %v%s", w, o, want, fe.tp, fe, where())
+				}
+			}
+		}
+	}
+	// every value was built by a function of the caller's type (with Go
+	// generics a wrong type cannot be returned, it panics inside the library
+	// instead; this also pins the producer recorded by the harness)
+	producerTp := map[int]byte{}
+	for _, inv := range r.invs {
+		producerTp[inv.serial] = inv.tp
+	}
+	for w := range p.Workers {
+		for i, o := range p.Workers[w] {
+			res := r.results[w][i]
+			if res.a != nil && producerTp[res.a.Serial] == 'B' || res.b != nil && producerTp[res.b.Serial] == 'A' {
+				return fmt.Errorf("worker %d %v holds a value built by the other type's decode function%s", w, o, where())
+			}
+		}
+	}
+	// operations other than DecodeExclusive on the same key that can make the
+	// function of a DecodeExclusive call unnecessary: everything that
+	// publishes a value of the key's type under the key's reference or under
+	// a reference further down its chain
 	for k, s := range stat {
 		for w := range p.Workers {
 			for _, o := range p.Workers[w] {
-				if o.Kind == "DexA" && refOf(o.Ref) == k.ref {
+				if (o.Kind == "DexA" || o.Kind == "DexB") && refOf(o.Ref) == k.ref && o.Kind[3] == k.tp {
 					continue
 				}
-				for _, published := range []string{o.Ref, holder(o.Ref)} {
-					if published == nameOf(k.ref) || published == holder(nameOf(k.ref)) {
+				for _, pk := range publishes(o) {
+					if pk.tp == k.tp && (pk.ref == k.ref || nameOf(pk.ref) == holder(nameOf(k.ref))) {
 						s.other++
 						break
 					}
@@ -835,7 +981,7 @@ func checkCase(c *Case) error {
 		onlyPairs := true
 		for _, ops := range p.Workers {
 			for _, o := range ops {
-				if (o.Kind == "DecA" || o.Kind == "DexA") && holder(o.Ref) == name {
+				if o.Kind == "DecA" || o.Kind == "DexA" || o.Kind == "DecB" || o.Kind == "DexB" {
 					onlyPairs = false
 				}
 			}
@@ -857,6 +1003,13 @@ func checkCase(c *Case) error {
 	sort.Strings(c.out.classes)
 	c.out.signature = r.signature
 	return nil
+}
+
+func resultPtr(res opResult) any {
+	if res.a != nil {
+		return res.a
+	}
+	return res.b
 }
 
 func describe(ptr any) string {
